@@ -76,6 +76,20 @@ func scenarios() []scenario {
 		{name: "S6-three-assemblers-close-reuse",
 			pre:     []pkt{seg(0, 0, syn)},
 			threads: [][]pkt{{seg(0, 0, d(0, 2, true))}, {seg(0, 0, d(2, 4, false))}, {seg(1, 0, syn), seg(1, 0, d(0, 4, false))}}},
+		// one assembler hands a stream bytes that were buffered out of order (they sit in a page)
+		// while another assembler buffers out-of-order data of ANOTHER connection: the bytes a
+		// stream is looking at during its callback must not change under it
+		{name: "S7-buffered-delivery-vs-buffering-on-another-connection",
+			pre:     []pkt{seg(0, 0, syn), seg(0, 0, d(2, 4, false)), seg(1, 0, syn)},
+			threads: [][]pkt{{seg(0, 0, d(0, 2, false))}, {seg(1, 0, d(2, 4, false)), seg(1, 0, d(1, 2, false))}}},
+		// a connection is torn down and opened again under the same key while a flusher runs
+		{name: "S9-close-and-reopen-vs-flusher",
+			pre:     []pkt{seg(0, 0, syn), seg(0, 0, d(0, 2, false))},
+			threads: [][]pkt{{seg(0, 0, tm.Event{K: tm.RST}), seg(0, 0, syn), seg(0, 0, d(0, 2, false))}, {{k: oFlushOlder}, {k: oFlushAll}}}},
+		// both directions of one established connection are fed at the same moment by two assemblers
+		{name: "S8-both-directions-of-an-established-connection",
+			pre:     []pkt{seg(0, 0, syn), seg(0, 1, syn)},
+			threads: [][]pkt{{seg(0, 0, d(0, 2, false)), seg(0, 0, d(2, 4, false))}, {seg(0, 1, d(0, 2, false)), seg(0, 1, d(2, 4, true))}}},
 	}
 }
 
@@ -114,7 +128,18 @@ func (w *world) fail(k, what string) {
 	}
 }
 
+// Accept is a callback of the connection's stream like the others: it must not run while
+// another callback of the same stream is running
 func (s *stream) Accept(tcp *layers.TCP, ci gopacket.CaptureInfo, dir reassembly.TCPFlowDirection, nextSeq reassembly.Sequence, start *bool, ac reassembly.AssemblerContext) bool {
+	s.in++
+	if s.in != 1 {
+		s.w.fail("callbacks-overlap", "Accept entered while another callback of the same stream is running")
+	}
+	vsync.Yield("Accept")
+	if s.in != 1 {
+		s.w.fail("callbacks-overlap", "another callback of the same stream was entered while Accept was running")
+	}
+	s.in--
 	return true
 }
 
@@ -129,9 +154,14 @@ func (s *stream) ReassembledSG(sg reassembly.ScatterGather, ac reassembly.Assemb
 	}
 	s.calls++
 	s.live()
+	l0, _ := sg.Lengths()
+	before := append([]byte(nil), sg.Fetch(l0)...)
 	vsync.Yield("ReassembledSG")
 	l, saved := sg.Lengths()
 	all := sg.Fetch(l)
+	if string(before) != string(all) {
+		s.w.fail("bytes-change-during-callback", fmt.Sprintf("stream of connection %s: the bytes handed over read %q at the start of ReassembledSG and %q later in the same call", s.key[:2], before, all))
+	}
 	dir, start, end, skip := sg.Info()
 	d := 0
 	if dir == reassembly.TCPDirServerToClient {
